@@ -189,7 +189,7 @@ Proof.
   - unfold step, step_gen in HS. destruct (shut s); try done. simplify_eq. exact HI.
   - unfold step, step_gen in HS. destruct (bool_eq ok (bool_decide (svc s = Stopped))); [|done].
     destruct ok; simplify_eq; exact HI.
-  - unfold step, step_gen in HS. destruct (svc s); try done. destruct n as [|n]; [done|]. simplify_eq.
+  - unfold step, step_gen in HS. destruct (svc s); try done. destruct (wq s); [done|]. destruct n as [|n]; [done|]. simplify_eq.
     unfold hwf; cbn. apply (hwf4_init (S n)).
   - unfold step, step_gen in HS. destruct (svc s); try done. destruct (wq s); [|done]. simplify_eq.
     exact HI.
@@ -257,7 +257,7 @@ Proof.
   - unfold step, step_gen in HS. destruct (shut s); try done. simplify_eq. cbn. intros [?|?]; done.
   - unfold step, step_gen in HS. destruct (bool_eq ok (bool_decide (svc s = Stopped))); [|done].
     destruct ok; simplify_eq; exact HI.
-  - unfold step, step_gen in HS. destruct (svc s) eqn:Ev; try done. destruct n as [|n]; [done|]. simplify_eq.
+  - unfold step, step_gen in HS. destruct (svc s) eqn:Ev; try done. destruct (wq s) eqn:Ewq0; [done|]. destruct n as [|n]; [done|]. simplify_eq.
     cbn. intros Hs. exfalso. destruct HV as [_ HV]. rewrite Ev in HV.
     destruct Hs as [Hs|Hs]; rewrite Hs in HV; intuition congruence.
   - unfold step, step_gen in HS. destruct (svc s); try done. destruct (wq s); [|done]. simplify_eq.
